@@ -32,6 +32,11 @@ theorem gen_sock_object_state : Gen.C18.sockObjectState =
     ["__init__: self._host,self._port", "connect: self._socket", "disconnect: self._socket", "writePacket: -",
      "_readData: -", "readPacket: -"] ∧ Gen.C18.sockClassLevel = [] := by decide
 
+/-- the router decides per packet, by looking the packet's function up in the live queue table: nothing about
+earlier packets is remembered across loop iterations (a cached "no queue" would go stale when a receiver registers) -/
+theorem gen_router_stateless : Gen.C18.routerStateOutsideLoop = [] ∧
+    Gen.C18.routerQueueReads = ["packet.function.value not in self._rxQueues", "self._rxQueues[packet.function.value]"] := by decide
+
 theorem gen_router_loop : Gen.C18.routerHandlers = ["Exception"] ∧ Gen.C18.routerHandlerLeavesLoop = false ∧
     Gen.C18.routerTryInsideLoop = true := by decide
 
